@@ -193,7 +193,7 @@ theorem exRun_keeps_capped (m : Int) (n : Nat) (ed ed' : Ed) (hi : PosOk (some m
     one that command returns -/
 theorem plain_line_visits_one_state (ed ed1 s : Ed) (ln : Bytes) (rest0 : List Bytes) (r : Int)
     (hin : ed.input = ln :: rest0)
-    (hone : Lemmas.C06b.runOne 38 (stepStart ed rest0) (Lemmas.C06b.parse1 ln) 0 = some ((r, ed1), []))
+    (hone : Lemmas.C06b.runOne (FUEL - 2) (stepStart ed rest0) (Lemmas.C06b.parse1 ln) 0 = some ((r, ed1), []))
     (hat : ∀ a h, (Lemmas.C06b.parse1 ln).idx = some (a, h) → h ≠ "ec_at" ∧ h ≠ "ec_glob" ∧ h ≠ "ec_edit")
     (hv : VStep ed s) : s = ed1 := vstep_single hin hone hat hv
 
